@@ -49,3 +49,49 @@ Theorem C15_decompress_gzip : forall sent gunzip, sent <> [] -> decompress true 
 Proof. exact decompress_gzip. Qed.
 Print Assumptions C15_decompress_gzip.
 
+
+(* ---- tie to the source by proof: the bodies of gzipResponseWriter.WriteHeader / Write / Flush and of the deferred
+   finaliser of the Gzip handler, translated statement by statement from middleware/compress.go on every run
+   (Gen/Src_gzip.v, language Base/GoLite.v), REFINE the model the theorems above are about: run on the cells of any model
+   state g (cz = the integer in the cell w.code), and with the events they emit (header changes, status line, writes to the
+   gzip stream and to the wire) replayed on g, they give exactly g_write_header / g_write / g_flush / finish. *)
+From Coq Require Import String ZArith.
+From Echo Require Import Base.GoLite Gen.Src_gzip Mw.GzipSrc.
+
+Theorem C15_source_writeheader : forall minlen g cz0 cz ctype,
+  code g = Z.to_nat cz0 ->
+  let st := {| locals := [("code"%string, cz)]; fields := cells "w" minlen g cz0 [] ctype; events := []; inputs := [] |} in
+  let '(st', _) := GoLite.run gsym src_gzip_writeheader_results src_gzip_writeheader st in
+  after "w" [] g st' = g_write_header g (Z.to_nat cz).
+Proof. exact src_gzip_writeheader_refines. Qed.
+Print Assumptions C15_source_writeheader.
+
+(* the chunk b is passed on as an opaque value; bytes.Buffer.Write takes all of it, the gzip stream reports no error *)
+Theorem C15_source_write : forall minlen g cz b ctype,
+  code g = Z.to_nat cz ->
+  let st := {| locals := [("b"%string, 7%Z)]; fields := cells "w" minlen g cz b ctype; events := [];
+               inputs := [[zn (List.length b); 0%Z]; [0%Z; 0%Z]] |} in
+  let '(st', ret) := GoLite.run gsym src_gzip_write_results src_gzip_write st in
+  after "w" b g st' = fst (g_write minlen g b) /\
+  (exceeded g = false -> ret = [zn (List.length b); 0%Z]).
+Proof. exact src_gzip_write_refines. Qed.
+Print Assumptions C15_source_write.
+
+Theorem C15_source_flush : forall minlen g cz ctype,
+  code g = Z.to_nat cz ->
+  let st := {| locals := []; fields := cells "w" minlen g cz [] ctype; events := []; inputs := [[0%Z; 0%Z]; [0%Z]] |} in
+  let '(st', _) := GoLite.run gsym src_gzip_flush_results src_gzip_flush st in
+  after "w" [] g st' = g_flush g.
+Proof. exact src_gzip_flush_refines. Qed.
+Print Assumptions C15_source_flush.
+
+(* the finaliser: what is on the wire afterwards is the model's [finish]; the stream is closed before buffer and writer go
+   back to their pools *)
+Theorem C15_source_finish : forall minlen g cz ctype,
+  code g = Z.to_nat cz ->
+  let st := {| locals := []; fields := cells "grw" minlen g cz [] ctype; events := []; inputs := [] |} in
+  let '(st', _) := GoLite.run gsym src_gzip_finish_results src_gzip_finish st in
+  out (fst (fold_left apply_fin (events st') (g, false))) = finish g /\
+  map fst (skipn (List.length (events st') - 3) (events st')) = ["w.Close"; "bpool.Put"; "pool.Put"]%string.
+Proof. exact src_gzip_finish_refines. Qed.
+Print Assumptions C15_source_finish.
